@@ -3,17 +3,24 @@ from __future__ import annotations
 from .common import *
 
 
-def run(eng: Engine, ck: Check):
-    repo = eng.repo
-    # ---- R-C04-GUARD: COMPLETE only under is_transfered()
+def is_transfered_definition(eng: Engine, ck: Check, rule: str):
+    """Transfer.is_transfered() is exactly `filesize == bytes_transfered` (shared by C04: COMPLETE only for whole files, and C17: what a
+    transfer caught transferring is repaired to)."""
     it = eng.func(TMODEL, 'Transfer.is_transfered')
+    ck.visited(it)
     rets = [n for n in walk_local(it.node) if isinstance(n, ast.Return)]
     ok = len(rets) == 1
     if ok:
         a = cmp_atom(rets[0].value)
         ok = bool(a and a[0] == 'eq' and {chain_str(a[1]), chain_str(a[2])} == {'self.filesize', 'self.bytes_transfered'})
-    ck.ob('R-C04-GUARD', it, it.node, 'is_transfered() is exactly `filesize == bytes_transfered`', ok,
+    ck.ob(rule, it, it.node, 'is_transfered() is exactly `filesize == bytes_transfered` (also for a 0-byte file: 0 == 0)', ok,
           f'body returns `{unparse(rets[0].value) if rets else "?"}`', construct='is_transfered definition')
+
+
+def run(eng: Engine, ck: Check):
+    repo = eng.repo
+    # ---- R-C04-GUARD: COMPLETE only under is_transfered()
+    is_transfered_definition(eng, ck, 'R-C04-GUARD')
     sites = []
     for f in repo.all_funcs():
         if f.module.rel not in (TM,):
@@ -76,6 +83,12 @@ def run(eng: Engine, ck: Check):
         pat.match(expand_aliases(cb, aug[0].value), pat.compile_pattern(f'len({data_param[0]})')[0]) is not None and not eng.guards_at(cb, aug[0])
     ck.ob('R-C04-COUNT', cb, cb.node, 'progress callback adds exactly len(chunk), unconditionally', ok,
           f'{[unparse(a) for a in aug]}', construct='callback += len(data)')
+    cb_stores = [st for f, st, v in eng.stores_to_attr('bytes_transfered', [cb])]
+    ck.ob('R-C04-COUNT', cb, cb.node, 'the progress callback changes the counter ONLY by adding len(chunk): the counter is the sole evidence of how many bytes '
+          'were written/sent, so it must not be clamped, rounded or reset there (is_transfered() compares it with the announced size)',
+          len(cb_stores) == 1 and len(aug) == 1 and cb_stores[0] is aug[0],
+          f'stores to bytes_transfered in the callback: {[unparse(x) for x in cb_stores]} — e.g. clamping to filesize makes an over-delivering sender '
+          '(or a file that grew) end COMPLETE with a local file that is not the announced one', construct='callback counter only += len')
     for q, io_call, desc in (('PeerConnection.receive_file', 'write', 'written to the file'),
                              ('PeerConnection.send_file', 'send_data', 'sent on the socket')):
         f = eng.func(CONN, q)
